@@ -12,6 +12,24 @@ def gen_workload(rng, root, tier, opts=None, big=False):
     opts = opts or rng.choice(OPTS + [o for o in OPTS if "mem=" in o] * 2)
     lines = ["e2 newat %s/db" % root, "e2 open %s" % opts]
     commits = []
+    if "ver=1" in opts:
+        # versioned stores: a logical clock that moves forward before every transaction (distinct timestamps)
+        class _Clocked(list):
+            def __init__(self, base):
+                super().__init__(base)
+                self.clk = 100
+            def _tick(self, x):
+                if isinstance(x, str) and x.startswith("e2 begin "):
+                    self.clk += 7
+                    super().append("e2 clock %d" % self.clk)
+            def append(self, x):
+                self._tick(x)
+                super().append(x)
+            def __iadd__(self, xs):
+                for x in xs:
+                    self.append(x)
+                return self
+        lines = _Clocked(lines)
     tx = 0
     vcount = 0
     if "mem=" in opts and rng.random() < 0.5:
@@ -175,7 +193,7 @@ def judge(answer, commits, n_required):
     return "ok", ""
 
 
-def explore(ctx, pid, want, n_quick=8, n_thorough=60, cuts_quick=40, big=False, opts_pool=None, proto=None, proto_traces=None, proto_gen2=0):
+def explore(ctx, pid, want, n_quick=8, n_thorough=60, cuts_quick=40, big=False, opts_pool=None, proto=None, proto_traces=None, proto_gen2=0, extra_check=None):
     """want: set of verdict kinds this property reports (others are ignored here, the sibling
     property reports them)"""
     rng = C.Rng(ctx["seed"] * 7001 + 17)
@@ -238,6 +256,9 @@ def explore(ctx, pid, want, n_quick=8, n_thorough=60, cuts_quick=40, big=False, 
         stats["cuts"] += len(cuts)
         stats["images"] += len(imgs)
         answers = K.scan_images([d for d, _, _ in imgs], opts)
+        if extra_check is not None:
+            for desc, text in extra_check(imgs, answers, opts, script, log):
+                res["violations"].append((desc, text, dict(trace=t, cut=-1, pol="-", verdict="extra", kind="-", opts=opts, log=log, script=script, commits=commits)))
         if proto is not None and (proto_traces is None or t < proto_traces):
             # correspondence with Crash/Proto.v: the abstracted trace must be accepted by proto_okb and the
             # model's `recover` must predict what each reopened image returned
